@@ -342,7 +342,14 @@ func seedMemoOr(name string) []byte {
 	return s.get()
 }
 
-var resetHooks []func()
+var slowOnShortInputs = []string{
+	"sm9.KeyExchange.RespondKeyExchange", "pkcs.GetCipher+Decrypt[", "pkcs.Cipher.Decrypt[", "pkcs8.ParsePrivateKey[",
+	"cfca.ParseSM2", "cfca.DecryptBySM4CBC[password]", "pkcs7.DegenerateCertificate", "smx509.DecryptPEMBlock[block.Bytes",
+	"smx509.ParseDERCRL", "smx509.ParseCSRResponse", "smx509.ParseCertificates", "smx509.ParseCertificateRequest",
+	"smx509.ParseCFCACertificateRequest", "smx509.ParseCertificate", "smx509.ParsePKIXPublicKey", "smx509.ParsePKCS1PublicKey",
+	"smx509.ParsePKCS1PrivateKey", "smx509.ParseSM2PrivateKey", "smx509.ParseTypedECPrivateKey", "smx509.ParsePKCS8PrivateKey",
+	"smx509.ParseECPrivateKey",
+}
 
 var epsCache []*epT
 
@@ -364,6 +371,14 @@ func allEPs() []*epT {
 	for _, e := range eps {
 		for _, s := range e.seeds {
 			regSeed(s)
+		}
+		// DESIGN: the length-3 enumeration is for parsers under ~1 µs per call. Measured with `c13 bench-short`:
+		// the encoding/asn1 (reflection) front-ends and everything that derives a key or schedules a cipher before
+		// looking at the input cost 1.5-18 µs on 3-byte inputs and are enumerated to length 2 only.
+		for _, p := range slowOnShortInputs {
+			if strings.HasPrefix(e.name, p) {
+				e.fast = false
+			}
 		}
 	}
 	epsCache = eps
